@@ -139,7 +139,8 @@ def check_case(sp, col, shard, seed_parts, n_ops):
                     grp = [v for k, v in by_n.items() if len(v) >= 2 and k >= 2]
                     if not grp:
                         continue
-                    pair = rnd.sample(grp[0], 2)
+                    # (two, sometimes three choices: three 2-option choices under PERMUTATION leave no option at all)
+                    pair = rnd.sample(grp[0], 3 if len(grp[0]) >= 3 and rnd.random() < .4 else 2)
                     cp = g.copy()
                     live.append(cp.constrain_choices(rnd.choice(list(ChoiceConstraintType)), pair))
                     op = ('constrain_on_copy', [b.name(n) for n in pair])
@@ -211,6 +212,45 @@ def check_class_record(col):
                       {'before': rec1, 'after': rec1b}, [], where={'changed': 'taken_single'})
 
 
+def constrain_scenarios(col, seed):
+    """Constraining choices on a COPY, for every constraint type and 2..3 choices of 2..3 options (including the
+    combinations that leave a choice without any option): the original graph and an earlier copy keep reporting the same."""
+    from adsg_core.graph.choice_constraints import ChoiceConstraintType
+    for n_ch in (2, 3):
+        for n_opt in (2, 3):
+            for ct in ChoiceConstraintType:
+                nodes = [{'id': 'R', 'kind': 'named'}]
+                sel = []
+                for i in range(n_ch + 1):
+                    opts = ['O%d_%d' % (i, j) for j in range(n_opt)]
+                    nodes += [{'id': o, 'kind': 'named'} for o in opts]
+                    sel.append({'key': 'C%d' % i, 'id': 'C%d' % i, 'origin': 'R', 'options': opts})
+                sp = S.normalize({'nodes': nodes, 'edges': [], 'sel': sel, 'start': ['R']})
+                b = B.build(sp)
+                if b.dsg is None:
+                    continue
+                col.evaluations += 1
+                col.count('monitor_constrain_scenarios')
+                g = b.dsg
+                obs = full_obs(b)
+                earlier = g.copy()
+                before_g, before_e = obs(g), obs(earlier)
+                try:
+                    g.copy().constrain_choices(ct, [b.sel['C%d' % i] for i in range(n_ch)])
+                except Exception:  # noqa  (an explicit rejection is fine; what matters is what the others report)
+                    col.count('constrain_scenario_rejected')
+                for name_, gg, bef in (('original', g, before_g), ('earlier_copy', earlier, before_e)):
+                    now = obs(gg)
+                    keys = [k for k in bef if bef[k] != now.get(k)]
+                    if keys:
+                        col.violation('existing_graph_changed', sp,
+                                      {'changed': keys[0], 'object': name_, 'before': bef[keys[0]], 'after': now.get(keys[0]),
+                                       'after_op': ['constrain_on_copy', ct.name, n_ch, n_opt]}, [],
+                                      where={'changed': keys[0], 'op': 'constrain_on_copy'})
+                        break
+                col.nontrivial.add('constrain|%s|%d|%d' % (ct.name, n_ch, n_opt))
+
+
 def worker(task, col):
     from adsg_core.graph.adsg import DSG
     M.Tap(DSG, 'get_for_adjusted', counter=col.count)
@@ -218,6 +258,8 @@ def worker(task, col):
         v = task['replay']['violation']
         common.guard(col, check_case, v['spec'], col, 'replay', v.get('seed_parts', ['replay']), 40)
         return
+    if task['shard'] == 1:
+        common.guard(col, constrain_scenarios, col, task['seed'])
     if task['shard'] == 0:
         check_class_record(col)
         for c in common.corpus('C08'):
